@@ -48,7 +48,7 @@ PROPS["C04"] = dict(
 )
 
 PROPS["C06"] = dict(
-    groups=["token", "escape", "quote"],
+    groups=["token", "escape", "quote", "spell"],
     lean_props=["SeaQ.Props.C06", "SeaQ.Props.C06Stmt"],
     lean_obligations=[],
     technique="Lean 4 proof (mutual structural induction over condition trees, list induction over call histories, Kleene-logic case analysis) over a hand-written model of Condition::add/not/add_option/to_simple_expr and ConditionHolder::add_condition; model tied by comparing the parse tree of the rendered predicate with the model's expression on bounded-exhaustive and random histories; 3-valued truth-table oracle on the real crate",
@@ -163,7 +163,7 @@ _STMT_MODEL_NOTE = ("Trusted: Lean kernel; the hand-written statement model (lea
     "that every raw-free statement renders to a safe piece list is not yet a theorem (DESIGN.md).")
 
 PROPS["C01"] = dict(
-    groups=["token", "escape", "quote"],
+    groups=["token", "escape", "quote", "spell"],
     lean_props=["SeaQ.Props.C01"],
     lean_obligations=["SeaQ.Lemmas.Scan", "SeaQ.Lemmas.SafeBasics", "SeaQ.Lemmas.Ctx", "SeaQ.Lemmas.RenderCtx", "SeaQ.Lemmas.Plain", "SeaQ.Lemmas.RenderPlain"],
     technique="Lean 4 proof over the statement rendering model: for every piece list (unbounded), the values returned are the parameter pieces' values in order (no hypothesis), and under the decidable Safe discipline the engine-side reading of the parameterised text is the piece-wise one, so the placeholders outside quoted text are ?xn / $1..$n ascending, one per value; Safe itself is a theorem (render_safe, mutual structural induction over the 41 render functions) for every statement of the model without caller-supplied raw text, any bound values; model tied to the crate by differential runs of generated statements through build / build_any / build_collect*, with an independent reference-lexer oracle on the crate's output",
@@ -174,7 +174,7 @@ PROPS["C01"] = dict(
 )
 
 PROPS["C02"] = dict(
-    groups=["token", "escape", "quote"],
+    groups=["token", "escape", "quote", "spell"],
     lean_props=["SeaQ.Props.C02"],
     lean_obligations=["SeaQ.Lemmas.Scan", "SeaQ.Lemmas.SafeBasics", "SeaQ.Lemmas.Ctx", "SeaQ.Lemmas.RenderCtx", "SeaQ.Lemmas.Plain", "SeaQ.Lemmas.RenderPlain", "SeaQ.Props.C01"],
     technique="Lean 4 proof over the statement rendering model: for every Safe piece list, reading the parameterised text the way the engine does and re-printing it with each placeholder replaced by the literal of its value gives exactly the inline text (C02_substitute); the crate's entry points (to_string, build, build_any, build_collect, build_collect_any, String and SqlWriterValues writers) are compared with the model's two texts and with each other on every generated statement, rendering twice and Debug-equality before/after rendering included",
@@ -186,7 +186,7 @@ PROPS["C02"] = dict(
 
 from stages import stage_c07
 PROPS["C07"] = dict(
-    groups=["token", "escape", "quote"],
+    groups=["token", "escape", "quote", "spell"],
     lean_props=["SeaQ.Props.C02"],
     lean_obligations=["SeaQ.Lemmas.Scan", "SeaQ.Lemmas.SafeBasics", "SeaQ.Lemmas.Ctx", "SeaQ.Lemmas.RenderCtx", "SeaQ.Lemmas.Plain", "SeaQ.Lemmas.RenderPlain", "SeaQ.Props.C01"],
     extra=[stage_c07],
@@ -199,7 +199,7 @@ PROPS["C07"] = dict(
 
 from stages import stage_c09
 PROPS["C09"] = dict(
-    groups=["token", "escape", "quote"],
+    groups=["token", "escape", "quote", "spell"],
     lean_props=["SeaQ.Props.C09"],
     lean_obligations=[],
     extra=[stage_c09],
@@ -211,7 +211,7 @@ PROPS["C09"] = dict(
 )
 
 PROPS["C08"] = dict(
-    groups=["token", "escape", "quote"],
+    groups=["token", "escape", "quote", "spell"],
     pregen=[("gen-policy", "SeaQ/Gen/Policy.lean")],
     lean_props=["SeaQ.Props.C08", "SeaQ.Props.C05Stmt"],
     lean_obligations=["SeaQ.Lemmas.Balance", "SeaQ.Lemmas.RenderBalance", "SeaQ.Lemmas.StmtPolicy"],
@@ -224,7 +224,7 @@ PROPS["C08"] = dict(
 
 from stages import stage_c13
 PROPS["C13"] = dict(
-    groups=["token", "escape", "quote", "coltypes"],
+    groups=["token", "escape", "quote", "spell", "coltypes"],
     lean_props=["SeaQ.Props.C13", "SeaQ.Props.Ddl"],
     lean_obligations=["SeaQ.Lemmas.Scan", "SeaQ.Lemmas.SafeBasics", "SeaQ.Lemmas.Ctx", "SeaQ.Lemmas.RenderCtx", "SeaQ.Lemmas.DdlCtx", "SeaQ.Lemmas.Balance", "SeaQ.Lemmas.RenderBalance", "SeaQ.Lemmas.DdlBalance", "SeaQ.Lemmas.Plain", "SeaQ.Lemmas.RenderPlain", "SeaQ.Lemmas.DdlPlain", "SeaQ.Props.C01"],
     extra=[stage_c13],
@@ -236,7 +236,7 @@ PROPS["C13"] = dict(
 )
 
 PROPS["C14"] = dict(
-    groups=["token", "escape", "quote", "coltypes"],
+    groups=["token", "escape", "quote", "spell", "coltypes"],
     lean_props=["SeaQ.Props.C14", "SeaQ.Props.Ddl"],
     lean_obligations=["SeaQ.Lemmas.Scan", "SeaQ.Lemmas.SafeBasics", "SeaQ.Lemmas.Ctx", "SeaQ.Lemmas.RenderCtx", "SeaQ.Lemmas.DdlCtx", "SeaQ.Lemmas.Balance", "SeaQ.Lemmas.RenderBalance", "SeaQ.Lemmas.DdlBalance", "SeaQ.Lemmas.Plain", "SeaQ.Lemmas.RenderPlain", "SeaQ.Lemmas.DdlPlain", "SeaQ.Props.C01"],
     technique="Lean 4 model of the schema-statement renderer (Model/Ddl: CREATE / ALTER / DROP / RENAME / TRUNCATE TABLE, CREATE / DROP INDEX, ADD / DROP FOREIGN KEY, Postgres CREATE / ALTER / DROP TYPE and CREATE / DROP EXTENSION; MySQL and Postgres dialects here) tied to the crate by differential runs of generated schema statements through build / to_string / build_any, with theorems for every statement of the model: the engine's lexer reads the rendered text item by item as written (ddl_read), parentheses are balanced (ddl_balanced), CREATE TABLE is head + the ', '-separated list of all declared columns, keys, foreign keys and checks in order + tail (create_items, create_complete), every MySQL column specification is written in the order given (mysql_specs_all), unsigned types are the signed type + UNSIGNED, Postgres auto-increment columns are declared smallserial / serial / bigserial and the specification writes nothing; plus Lean 4 proofs over the MySQL / Postgres type-name tables regenerated from src/backend/{mysql,postgres}/table.rs on every run: every template of every supported ColumnType arm names a type the dialect defines in a form it defines (for all parameter values), parameters appear in the written name as their decimal digits and in declaration order, UNSIGNED follows exactly the unsigned variants, auto-increment is AUTO_INCREMENT / smallserial-serial-bigserial; whole statements are decided by a reference DDL grammar per dialect: the parse tree of every generated schema statement must equal the tree expected from the scenario (each column one type and each specification once, table-level elements, options, ALTER option separators, index / foreign-key / type / extension statements)",
